@@ -1,6 +1,7 @@
 package props
 
 import (
+	"encoding/json"
 	"fmt"
 	"strings"
 	"sync"
@@ -145,9 +146,17 @@ func perturb(stop *int32, wg *sync.WaitGroup, seed uint64) {
 					c.Seed = seed + i
 					vm := c.NewVM()
 					_ = vm.Run("10d100 + 4c8")
-				default: // direct use of the global sources
+				default: // direct use of the global sources; host-side values made and then overwritten in place
 					_ = ds.Roll(nil, 100, 0)
 					_ = xrand.Intn(1000)
+					hv := ds.NewIntVal(ds.IntType(i % 300))
+					_ = json.Unmarshal([]byte(`{"t":0,"v":57}`), hv) // "make a default, then load the saved value into it"
+					hw := ds.NewIntVal(ds.IntType(i % 7))
+					hw.Value = ds.IntType(1000 + i%9)
+					hs := ds.NewStrVal("")
+					hs.Value = "host text"
+					hf := ds.NewFloatVal(0)
+					hf.Value = 2.75
 				}
 			}
 		}(g)
